@@ -72,6 +72,10 @@ type EPConf struct {
 	InitRTOms    int    `json:"init_rto_ms,omitempty"`
 	MaxRTOms     int    `json:"max_rto_ms,omitempty"`
 	CookieSecret string `json:"cookie_secret,omitempty"`
+	// TimeYear: Config.Time reports 1 January of this year instead of ConfigEpoch. RootPool: use this pool
+	// object (so that two configurations share one) instead of building one from Roots.
+	TimeYear int            `json:"time_year,omitempty"`
+	RootPool *x509.CertPool `json:"-"`
 	// WrapKeys counts private-key operations through wrappers.
 	WrapKeys bool `json:"wrap_keys,omitempty"`
 }
@@ -88,7 +92,27 @@ func NewEnv(w *World) *Env {
 	return &Env{W: w, TCaches: map[string]tlcp.SessionCache{}, DCaches: map[string]dtlcp.SessionCache{}, KeyOps: &KeyOps{}}
 }
 
-func FixedTime() time.Time { return vs.Epoch }
+// ConfigEpoch is the time every endpoint configuration reports through Config.Time (all fixtures are judged at
+// this date). It is not the kernel's wall clock, see vs.Epoch.
+var ConfigEpoch = time.Date(2030, 1, 1, 0, 0, 0, 0, time.UTC)
+
+func FixedTime() time.Time { return ConfigEpoch }
+
+// timeFn gives the Config.Time function of a description: the common date, or 1 January of TimeYear.
+func (e *EPConf) timeFn() func() time.Time {
+	if e.TimeYear == 0 {
+		return FixedTime
+	}
+	t := time.Date(e.TimeYear, 1, 1, 0, 0, 0, 0, time.UTC)
+	return func() time.Time { return t }
+}
+
+func (e *EPConf) rootPool() *x509.CertPool {
+	if e.RootPool != nil {
+		return e.RootPool
+	}
+	return pool(e.Roots)
+}
 
 func pool(names []string) *x509.CertPool {
 	if names == nil {
@@ -111,10 +135,10 @@ func (e *EPConf) key(env *Env, name string) crypto.PrivateKey {
 func (e *EPConf) BuildTLCP(env *Env, name string) *tlcp.Config {
 	c := &tlcp.Config{
 		Rand:                        env.W.Rand(name),
-		Time:                        FixedTime,
+		Time:                        e.timeFn(),
 		CipherSuites:                e.Suites,
 		ClientAuth:                  tlcp.ClientAuthType(e.Auth),
-		RootCAs:                     pool(e.Roots),
+		RootCAs:                     e.rootPool(),
 		ClientCAs:                   pool(e.ClientCAs),
 		ServerName:                  e.ServerName,
 		InsecureSkipVerify:          e.SkipVerify,
@@ -143,10 +167,10 @@ func (e *EPConf) BuildTLCP(env *Env, name string) *tlcp.Config {
 func (e *EPConf) BuildDTLCP(env *Env, name string) *dtlcp.Config {
 	c := &dtlcp.Config{
 		Rand:                      env.W.Rand(name),
-		Time:                      FixedTime,
+		Time:                      e.timeFn(),
 		CipherSuites:              e.Suites,
 		ClientAuth:                dtlcp.ClientAuthType(e.Auth),
-		RootCAs:                   pool(e.Roots),
+		RootCAs:                   e.rootPool(),
 		ClientCAs:                 pool(e.ClientCAs),
 		ServerName:                e.ServerName,
 		InsecureSkipVerify:        e.SkipVerify,
